@@ -280,6 +280,11 @@ def run(tier):
                 ('.a { @p: %s; @c: blue; x: @@p; } @c: red;' % q, '.a{x:blue;}'),
                 ('@p: %s; @c: red; .a { x: @@p; }' % q, '.a{x:red;}'),
                 ('@p: %s; @c: red; .m(@c) { x: @@p; } .a { .m(blue); }' % q, '.a{x:blue;}')]
+    # (selectors rooted late - the interpolated variable is defined further down - inside @media blocks of rules: repaired C03-interp-in-media)
+    ind += [('.a { @media print { .@{v} {x:y} } } @v: k;', '@media print{.a .k{x:y;}}'),
+            ('.a { .b { @media print { @media (color) { .@{v} {x:y} } } } } @v: k;', '@media print and (color){.a .b .k{x:y;}}'),
+            ('@media print { .@{v} {x:y} } @v: k;', '@media print{.k{x:y;}}'),
+            ('.a { @media print { .@{v} {x:y} z:w } .c{d:e} } @v: k;', '.a .c{d:e;}\n@media print{.a{z:w;}\n.a .k{x:y;}}')]
     ires = C.compile_many([(a_, dict(minify=True)) for a_, _w in ind])
     for (a_, want), r in zip(ind, ires):
         chk.count(('indirection', a_), nontrivial=True)
